@@ -233,15 +233,29 @@ Qed.
 End Traceless.
 
 (* ------------------------------------------------------------------ the pre-fix test differs *)
-From Interval Require Import Tactic.
+(* (no Coq-Interval tactic here: importing Interval.Tactic makes coqchk of this cone very slow) *)
+Lemma eps_small : 0 < powerRZ 2 (-52) /\ powerRZ 2 (-52) <= / 8.
+Proof.
+  assert (H8 : 8 <= 2 ^ 52).
+  { change 52%nat with (3 + 49)%nat. rewrite pow_add. assert (1 <= 2 ^ 49) by (apply pow_R1_Rle; lra). simpl pow at 1. nra. }
+  assert (Hp : 0 < 2 ^ 52) by lra.
+  change (powerRZ 2 (-52)) with (/ 2 ^ Pos.to_nat 52). replace (Pos.to_nat 52) with 52%nat by reflexivity.
+  split. apply Rinv_0_lt_compat; auto. apply Rinv_le_contravar; lra.
+Qed.
 
 Definition witC : Mat (T:=R) := [[(1, 0); (5, 0)]; [(0, 0); (1, 0)]].
 Definition witX : Mat (T:=R) := [[(0, 0); (1, 0)]; [(1, 0); (0, 0)]].
 
 Lemma atol_trace2_small : atol_trace RO 2 < 1.
-Proof. unfold atol_trace, oeps, onat, oZ. simpl. unfold Rdya. simpl Z.of_nat. interval. Qed.
+Proof.
+  unfold atol_trace, oeps, onat, oZ. simpl. unfold Rdya. simpl Z.of_nat. destruct eps_small as [H0 H1].
+  change (powerRZ 2 0) with 1. lra.
+Qed.
 Lemma atol_trace2_nonneg : 0 <= atol_trace RO 2.
-Proof. unfold atol_trace, oeps, onat, oZ. simpl. unfold Rdya. simpl Z.of_nat. interval. Qed.
+Proof.
+  unfold atol_trace, oeps, onat, oZ. simpl. unfold Rdya. simpl Z.of_nat. destruct eps_small as [H0 H1].
+  change (powerRZ 2 0) with 1. lra.
+Qed.
 
 Lemma witC_trace : tr_clean RO 2 witC = (2, 0).
 Proof.
@@ -330,7 +344,7 @@ Proof.
 Qed.
 
 Lemma oeps_nonneg : 0 <= oeps RO.
-Proof. unfold oeps. simpl. unfold Rdya. interval. Qed.
+Proof. unfold oeps. simpl. unfold Rdya. destruct eps_small as [H0 _]. lra. Qed.
 Lemma onat_nonneg n : 0 <= onat RO n.
 Proof. unfold onat, oZ. simpl. unfold Rdya. simpl powerRZ. rewrite Rmult_1_r, <- INR_IZR_INZ. apply pos_INR. Qed.
 Lemma atol_basis_nonneg d : 0 <= atol_basis RO d.
